@@ -37,10 +37,11 @@ VARIABLES members,  \* committed raft configuration (set of peers)
           pins,     \* committed pinset: set of pinned CIDs
           fsm,      \* [Peers -> SUBSET Cids] pinset served by a live peer
           view,     \* [Peers -> SUBSET Peers] Consensus.Peers() of a live peer
+          held,     \* [Peers -> SUBSET Cids] pinset a stopped peer held when it went down
           cnt,      \* [ops, changes, downs]
           last      \* [a, at, p, c, out] out \in {"ok","noop","error"}
 
-vars == <<members, status, data, pins, fsm, view, cnt, last>>
+vars == <<members, status, data, pins, fsm, view, held, cnt, last>>
 
 Up == {p \in Peers : status[p] = "up"}
 Quorum(m) == 2 * Cardinality(m \cap Up) > Cardinality(m)
@@ -53,6 +54,7 @@ Init ==
     /\ pins = {}
     /\ fsm = [p \in Peers |-> {}]
     /\ view = [p \in Peers |-> IF p = "p1" THEN {"p1"} ELSE {}]
+    /\ held = [p \in Peers |-> {}]
     /\ cnt = [ops |-> 0, changes |-> 0, downs |-> 0]
     /\ last = Act("init", NONE, NONE, NONE, "ok")
 
@@ -69,7 +71,7 @@ Write(at, c, isPin) ==
     /\ Settle(members, pins', status)
     /\ cnt' = [cnt EXCEPT !.ops = @ + 1]
     /\ last' = Act(IF isPin THEN "pin" ELSE "unpin", at, NONE, c, "ok")
-    /\ UNCHANGED <<members, status, data>>
+    /\ UNCHANGED <<members, status, data, held>>
 
 \* p is started as a staging peer and joins through `via`
 Join(p, via) ==
@@ -82,7 +84,7 @@ Join(p, via) ==
     /\ Settle(members', pins, status')
     /\ cnt' = [cnt EXCEPT !.changes = @ + 1]
     /\ last' = Act("join", via, p, NONE, "ok")
-    /\ UNCHANGED pins
+    /\ UNCHANGED <<pins, held>>
 
 \* adding a peer that already is a member: harmless no-op
 PeerAddPresent(at, p) ==
@@ -91,12 +93,13 @@ PeerAddPresent(at, p) ==
     /\ cnt.changes < MaxChanges
     /\ cnt' = [cnt EXCEPT !.changes = @ + 1]
     /\ last' = Act("add", at, p, NONE, "noop")
-    /\ UNCHANGED <<members, status, data, pins, fsm, view>>
+    /\ UNCHANGED <<members, status, data, pins, fsm, view, held>>
 
 PeerRemove(at, p) ==
     /\ at \in members \cap Up /\ Quorum(members)
     /\ cnt.changes < MaxChanges
     /\ cnt' = [cnt EXCEPT !.changes = @ + 1]
+    /\ UNCHANGED held
     /\ IF p \notin members
        THEN /\ last' = Act("rm", at, p, NONE, "noop")
             /\ UNCHANGED <<members, status, data, pins, fsm, view>>
@@ -118,6 +121,7 @@ Shutdown(p) ==
     /\ Settle(members, pins, status')
     /\ cnt' = [cnt EXCEPT !.downs = @ + 1]
     /\ last' = Act("shutdown", NONE, p, NONE, "ok")
+    /\ held' = [held EXCEPT ![p] = pins]
     /\ UNCHANGED <<members, data, pins>>
 
 Restart(p) ==
@@ -126,7 +130,7 @@ Restart(p) ==
     /\ status' = [status EXCEPT ![p] = "up"]
     /\ Settle(members, pins, status')
     /\ last' = Act("restart", NONE, p, NONE, "ok")
-    /\ UNCHANGED <<members, data, pins, cnt>>
+    /\ UNCHANGED <<members, data, pins, held, cnt>>
 
 Next ==
     \/ \E at \in Peers, c \in Cids : Write(at, c, TRUE) \/ Write(at, c, FALSE)
@@ -155,4 +159,10 @@ RemovedStops == \A p \in Peers : status[p] = "gone" => p \notin members /\ data[
 NoOpHarmless == [][last'.out \in {"noop", "error"} =>
                      UNCHANGED <<members, status, data, pins, fsm, view>>]_vars
 PinsetKept == [][last'.a \in {"join", "add", "rm", "shutdown", "restart"} => pins' = pins]_vars
+
+(* Reachability goals (negated): witnesses replayed on the real code.       *)
+\* a member comes back after CIDs it held were unpinned (and possibly re-pinned) meanwhile
+NoRestartAfterUnpin == [][~(\E p \in Peers : Restart(p) /\ \E c \in held[p] : c \notin pins)]_vars
+NoRestartAfterChurn == [][~(\E p \in Peers : Restart(p) /\ (\E c \in held[p] : c \notin pins)
+                                                      /\ (\E c \in pins : c \notin held[p]))]_vars
 =============================================================================
